@@ -118,6 +118,12 @@ pub struct Profile {
     pub max_cb_faults: usize,
     pub reorder: bool,
     pub allow_special: bool,
+    /// share (per thousand) of scenarios drawn with the broad fault mix instead of the
+    /// property's focused one: every fault kind the oracles of the property tolerate, moderate
+    /// rates, leaf and callback faults
+    pub broad_pm: usize,
+    /// fault kinds the property's oracles do not tolerate even in the broad mix
+    pub never: FaultCfg,
 }
 
 fn or_cfg(a: &FaultCfg, b: &FaultCfg, on: &dyn Fn(bool, bool) -> bool) -> FaultCfg {
@@ -147,6 +153,30 @@ pub fn generate(
 ) -> Scenario {
     let mut rng = Rng::new(simcore::rng::mix(seed, 0x5CE4, run_index));
     // --- swarm configuration, drawn first and in a fixed order --------------------------------
+    let broad = rng.below(1000) < profile.broad_pm;
+    let broad_profile;
+    let profile = if broad {
+        let mut allowed = FaultCfg::all(0);
+        allowed.dup = !profile.never.dup;
+        allowed.collide = !profile.never.collide;
+        allowed.nonfinite = !profile.never.nonfinite;
+        allowed.exotic = profile.allowed.exotic;
+        broad_profile = Profile {
+            programs: profile.programs.clone(),
+            allowed,
+            forced: FaultCfg::none(),
+            rates_pm: vec![0, 40, 100, 250],
+            max_leaf_faults: 3,
+            max_cb_faults: 2,
+            reorder: profile.reorder,
+            allow_special: profile.allow_special,
+            broad_pm: 0,
+            never: profile.never.clone(),
+        };
+        &broad_profile
+    } else {
+        profile
+    };
     let program = *rng.pick(&profile.programs);
     let max_len = *rng.pick(&[1usize, 2, 2, 3, 4]);
     let rate = *rng.pick(&profile.rates_pm);
